@@ -192,4 +192,112 @@ theorem frames_trace : ∀ (tr : List (Op × Obs)) (s : S), accepts s tr = true 
         rw [ih']
         simp
 
+/-- What the monitor guarantees about a single accepted observation. -/
+def Good (max : Int) (ob : Obs) : Prop :=
+  ob.out ≠ .panic ∧ ob.out ≠ .other ∧ (∀ f n, ob.out = .frame f n → (f.payload.length : Int) ≤ max) ∧
+  (ob.out = .needMore → 0 < ob.reserved)
+
+theorem step_good {s s' : S} {op : Op} {ob : Obs} (h : step s op ob = some s') : Good s.max ob := by
+  rcases step_cases h with ⟨_, _, e2, _, _⟩ | ⟨_, _, _, e2, _, _, _⟩ | ⟨_, e2, _, _, hr, _⟩ | ⟨_, e2, _, _, _⟩ |
+    ⟨f, n, _, e2, _, hb, _, _⟩ <;>
+  refine ⟨by rw [e2]; simp, by rw [e2]; simp, fun f' n' h' => ?_, fun h' => ?_⟩ <;> rw [e2] at h' <;> try cases h'
+  · exact hr
+  · exact hb
+
+theorem accepts_good : ∀ (tr : List (Op × Obs)) (s : S), accepts s tr = true → ∀ e ∈ tr, Good s.max e.2 := by
+  intro tr
+  induction tr with
+  | nil => intro s _ e he; cases he
+  | cons e0 r ih =>
+    intro s h e he
+    obtain ⟨op, ob⟩ := e0
+    unfold accepts at h
+    cases hs : step s op ob with
+    | none => rw [hs] at h; cases h
+    | some s' =>
+      rw [hs] at h
+      rcases List.mem_cons.mp he with h1 | h1
+      · rw [h1]; exact step_good hs
+      · have := ih s' h e h1; rw [step_max hs] at this; exact this
+
+/-- When the last call of an accepted trace is a `Decode` that did not return a frame, no complete frame is
+left: the parser gives the same answer on the unconsumed bytes. -/
+theorem accepts_last : ∀ (tr : List (Op × Obs)) (s : S), accepts s tr = true → ∀ ob, tr.getLast? = some (.decode, ob) →
+    (ob.out = .needMore → parse s.max (endState s tr).pending = .needMore) ∧
+    (ob.out = .tooBig → parse s.max (endState s tr).pending = .tooBig) := by
+  intro tr
+  induction tr with
+  | nil => intro s _ ob h; cases h
+  | cons e0 r ih =>
+    intro s h ob hl
+    obtain ⟨op, ob0⟩ := e0
+    unfold accepts at h
+    cases hs : step s op ob0 with
+    | none => rw [hs] at h; cases h
+    | some s' =>
+      rw [hs] at h
+      dsimp only at h
+      unfold endState
+      rw [hs]
+      dsimp only
+      cases r with
+      | nil =>
+        simp only [List.getLast?_singleton, Option.some.injEq, Prod.mk.injEq] at hl
+        obtain ⟨h1, h2⟩ := hl
+        subst h1; subst h2
+        unfold endState
+        rcases step_cases hs with ⟨_, e1, _⟩ | ⟨_, _, e1, _⟩ | ⟨_, e2, hp, _, _, e⟩ | ⟨_, e2, hp, _, e⟩ | ⟨f, n, _, e2, _, _, _, _⟩
+        · cases e1
+        · cases e1
+        · subst e; exact ⟨fun _ => hp, fun h' => (by rw [e2] at h'; cases h')⟩
+        · subst e; exact ⟨fun h' => (by rw [e2] at h'; cases h'), fun _ => hp⟩
+        · exact ⟨fun h' => (by rw [e2] at h'; cases h'), fun h' => (by rw [e2] at h'; cases h')⟩
+      | cons e1 r' =>
+        rw [List.getLast?_cons_cons] at hl
+        have := ih s' h ob hl
+        rw [step_max hs] at this
+        exact this
+
+theorem frames_drained {tr : List (Op × Obs)} {s : S} (h : accepts s tr = true) {ob : Obs}
+    (hl : tr.getLast? = some (.decode, ob)) :
+    (ob.out = .needMore → frames s.max (s.pending ++ delivered s tr) = (yielded tr, .needMore)) ∧
+    (ob.out = .tooBig → frames s.max (s.pending ++ delivered s tr) = (yielded tr, .tooBig)) := by
+  have hf := frames_trace tr s h []
+  simp only [List.append_nil] at hf
+  obtain ⟨h1, h2⟩ := accepts_last tr s h ob hl
+  constructor
+  · intro ho; rw [hf, frames_needMore (h1 ho)]; simp
+  · intro ho; rw [hf, frames_tooBig (h2 ho)]; simp
+
+/-- The bytes of the `feed` operations of a trace, in order. -/
+def fedBytes : List (Op × Obs) → List UInt8
+  | [] => []
+  | (.feed bs, _) :: r => bs ++ fedBytes r
+  | _ :: r => fedBytes r
+
+def NoRead (tr : List (Op × Obs)) : Prop := ∀ e ∈ tr, ∀ bs, e.1 ≠ .read bs
+
+theorem delivered_noRead : ∀ (tr : List (Op × Obs)) (s : S), accepts s tr = true → NoRead tr → delivered s tr = fedBytes tr := by
+  intro tr
+  induction tr with
+  | nil => intro s _ _; rfl
+  | cons e0 r ih =>
+    intro s h hn
+    obtain ⟨op, ob⟩ := e0
+    unfold accepts at h
+    cases hs : step s op ob with
+    | none => rw [hs] at h; cases h
+    | some s' =>
+      rw [hs] at h
+      dsimp only at h
+      have ih' := ih s' h (fun e he => hn e (List.mem_cons_of_mem _ he))
+      unfold delivered
+      rw [hs]
+      dsimp only
+      rw [ih']
+      cases op with
+      | feed bs => rfl
+      | read bs => exact absurd rfl (hn (.read bs, ob) (List.mem_cons_self ..) bs)
+      | decode => simp [fedBytes]
+
 end Sonic.Spec.WsFrame
